@@ -246,6 +246,9 @@ func (C07) OnCall(e *sim.Env, c *sim.Call) {
 	for _, ev := range c.Entry.Begin.Evidence {
 		k := evClass(model, pre, cp, ev, c.Time)
 		e.Count("c07.evidence." + k)
+		if c.Time.Sub(time.Unix(ev.Time, 0)) == cp.MaxEvAge {
+			e.Count("c07.evidence_exactly_at_max_age")
+		}
 		if k != "valid" {
 			if dsSeen[ev.Addr] && k != "tombstoned" {
 				// the event is emitted before the slash; what matters is that nothing is burned (checked below)
